@@ -1149,7 +1149,11 @@ pub trait DragonboxFloat: Float {
     /// Or, `ceil((MANTISSA_SIZE + 1) / log2(10)) + 1`.
     const DECIMAL_DIGITS: usize;
     const FC_PM_HALF_LOWER: i32 = -(Self::KAPPA as i32) - floor_log5_pow2(Self::KAPPA as i32);
-    const DIV_BY_5_THRESHOLD: i32 = floor_log2_pow10(Self::KAPPA as i32 + 1);
+    // The left endpoint can be an integer while `2^e * (2fc - 1)` is still
+    // divisible by `5^(k + kappa + 1)`: `2fc - 1` has up to `MANTISSA_SIZE + 2`
+    // bits, and so up to `floor_log5_pow2(MANTISSA_SIZE + 2)` factors of 5.
+    const DIV_BY_5_THRESHOLD: i32 =
+        floor_log2_pow10(floor_log5_pow2(Self::MANTISSA_SIZE + 2) + Self::KAPPA as i32 + 1);
 
     type Power;
 
@@ -1262,7 +1266,7 @@ impl DragonboxFloat for f32 {
 
         let r = umul96_lower64(two_f, *pow5);
         let parity = (r >> (64 - beta)) & 1;
-        let is_integer = r >> (32 - beta);
+        let is_integer = (r >> (32 - beta)) & 0xFFFF_FFFF;
         (parity != 0, is_integer == 0)
     }
 
